@@ -15,6 +15,38 @@ def coinsOfAmt (a : Amt) : List (Nat × Nat) :=
 
 def showAmt (a : Amt) : String := showCoins (coinsOfAmt a)
 
+/-! Amounts are functions, and what the model's operations return are towers of closures that re-run the operation at
+    every lookup.  Between operations the driver replaces them by pointwise-equal copies that answer from a table on
+    the denominations the wire uses (and from the original function elsewhere). -/
+def amtTable (a : Amt) : Array Nat := ((List.range wireM).map a).toArray
+def tableAmt (arr : Array Nat) (orig : Amt) : Amt := fun d => match arr[d]? with | some v => v | none => orig d
+def normAmt (a : Amt) : Amt := tableAmt (amtTable a) a
+def normPeriods (ps : List Period) : List Period := ps.map fun p => ⟨p.length, tableAmt (amtTable p.amount) p.amount⟩
+def normAccount (a : Account) : Account :=
+  { a with original := tableAmt (amtTable a.original) a.original, lockup := normPeriods a.lockup, vesting := normPeriods a.vesting,
+           delegatedFree := tableAmt (amtTable a.delegatedFree) a.delegatedFree,
+           delegatedVesting := tableAmt (amtTable a.delegatedVesting) a.delegatedVesting }
+
+theorem tableAmt_amtTable (a : Amt) : tableAmt (amtTable a) a = a := by
+  funext d
+  simp only [tableAmt, amtTable]
+  cases h : ((List.range wireM).map a).toArray[d]? with
+  | none => rfl
+  | some v =>
+    simp only
+    rw [List.getElem?_toArray, List.getElem?_map] at h
+    cases h2 : (List.range wireM)[d]? with
+    | none => rw [h2] at h; cases h
+    | some i =>
+      rw [h2] at h
+      simp only [Option.map_some, Option.some.injEq] at h
+      have : i = d := by
+        have := List.getElem?_range (n := wireM) (i := d)
+        by_cases hd : d < wireM
+        · rw [List.getElem?_range hd] at h2; exact (Option.some.inj h2).symm
+        · rw [List.getElem?_eq_none (by simpa using hd)] at h2; cases h2
+      rw [← h, this]
+
 def parseAmt (s : String) : Option Amt := (parseCoins s).map amtOfCoins
 
 /-- "len@coins;len@coins" | "-" -/
@@ -24,6 +56,17 @@ def parsePeriods (s : String) : Option (List Period) :=
     match item.splitOn "@" with
     | [l, c] => do let l ← l.toInt?; let a ← parseAmt c; pure ⟨l, a⟩
     | _ => none
+
+theorem normPeriods_eq (ps : List Period) : normPeriods ps = ps := by
+  induction ps with
+  | nil => rfl
+  | cons p ps ih =>
+    simp only [normPeriods, List.map_cons, tableAmt_amtTable] at ih ⊢
+    rw [ih]
+
+/-- the table-backed copy is the same account -/
+theorem normAccount_eq (a : Account) : normAccount a = a := by
+  simp only [normAccount, tableAmt_amtTable, normPeriods_eq]
 
 def showPeriods (ps : List Period) : String :=
   if ps.isEmpty then "-" else ";".intercalate (ps.map fun p => s!"{p.length}@{showAmt p.amount}")
